@@ -42,13 +42,15 @@ fn expect(op: &BinOp, o: Option<Ordering>) -> bool {
 fn check(op: BinOp, l: Value, r: Value) {
     let got = eval_binary_op(&op, &l, &r);
     let want = expect(&op, math_cmp(&l, &r));
+    let some_bool = matches!(got, Some(Value::Bool(_)));
     let ok = matches!(got, Some(Value::Bool(b)) if b == want);
     kani::cover!(want, "comparison can be true");
     kani::cover!(!want, "comparison can be false");
     std::mem::forget(got);
     std::mem::forget(l);
     std::mem::forget(r);
-    assert!(ok, "comparison result differs from the mathematical order");
+    assert!(some_bool, "no value for a numeric comparison");
+    assert!(!some_bool || ok, "comparison result differs from the mathematical order");
 }
 
 macro_rules! cmp_harness {
